@@ -557,12 +557,12 @@ theorem CInv.step {c : Cfg} {s s' : State} {l : Lbl} (hc : CInv s) (h : step c s
     injection h with h; subst h
     have hnot : id ∉ taskIds s.allItems := by
       rw [hc.has, hres]; simp [Call.ticketed]
-    have hall : ({ s with pushIdx := s.pushIdx + 1, cells := s.cells ++ [(Item.task ⟨id, e0⟩, false)],
-                          calls := upd s.calls id (Call.publish e0 s.pushIdx) } : State).allItems
+    have hall : s.popped ++ (s.cells ++ [(Item.task ⟨id, e0⟩, false)]).map (·.1)
                 = s.allItems ++ [Item.task ⟨id, e0⟩] := by
       simp [State.allItems]
     constructor
-    · rw [hall]
+    · show (taskIds (s.popped ++ (s.cells ++ [(Item.task ⟨id, e0⟩, false)]).map (·.1))).Nodup
+      rw [hall]
       simp only [taskIds_append]
       rw [List.nodup_append]
       refine ⟨hc.nodup, by simp [taskIds], ?_⟩
@@ -571,8 +571,9 @@ theorem CInv.step {c : Cfg} {s s' : State} {l : Lbl} (hc : CInv s) (h : step c s
       subst hb
       intro hab; subst hab; exact hnot ha
     · intro j
+      show j ∈ taskIds (s.popped ++ (s.cells ++ [(Item.task ⟨id, e0⟩, false)]).map (·.1)) ↔
+        (upd s.calls id (Call.publish e0 s.pushIdx) j).ticketed = true
       rw [hall]
-      show j ∈ taskIds (s.allItems ++ _) ↔ (upd s.calls id _ j).ticketed = true
       by_cases hji : j = id
       · subst hji; simp [taskIds, Call.ticketed]
       · rw [upd_other _ _ hji, ← hc.has j]
